@@ -33,12 +33,14 @@ def run(ctx):
             drift += 1
     rst, rbad = pc.real_run(ctx, binp, wd, "dec", 40000 if quick else 3000000, nproc=8 if quick else 14)
     for b in rbad:
-        if b["reason"] in ("panic", "error-laws", "hang", "crash"):
+        if b["reason"] in ("panic", "error-laws", "error-layer-depends-on-first-accessor", "hang", "crash"):
             d = pc.sig_dict(b)
             sig = {"kind": "real", "reason": b["reason"], "acc": d.get("where", "").split("(")[0], "fn": d.get("fn", ""), "file": d.get("file", ""), "text": d.get("text", "")}
             if b["reason"] == "error-laws":
                 sig = {"kind": "real", "reason": "error-laws", "first": b["event"].get("first"),
                        "shape": "failIdx=%s failPos=%s nl=%s" % (b["event"].get("failIdx"), b["event"].get("failPos"), b["event"].get("nl"))}
+            if b["reason"] == "error-layer-depends-on-first-accessor":
+                sig = {"kind": "real", "reason": b["reason"], "first": b["event"].get("first")}
             V.reject(sig, {"event": b["event"]})
     rc = V.finish()
     cov = {"states": mc.distinct + st["tstates"] + rst["tstates"], "transitions": mc.generated,
